@@ -585,6 +585,6 @@ fn c04_resend_packing___V__() {
     assert!(online.resend_queue.len() == 2);
     kani::cover!(unsafe { VERIF_SENDS___V__ } >= 1);
     kani::cover!(unsafe { VERIF_SENDS___V__ } == 0);
-    kani::cover!(online.packet.data.len() == room);
+    kani::cover!(online.packet.data.len() + 3 >= v_fit_limit());
     core::mem::forget(c);
 }
